@@ -37,6 +37,8 @@ def do_stream(ctx, name, cases, project, monitors=(), exhaustive=None, oracle=No
     a, b, incidents, case_by_id, cpath = engine.run_stream(rep, repo, name, cases, stall_s=stall_s, keep_lines=0, impl_only=impl_only)
     if not a:
         return a, b
+    if name not in ("known",) and not name.startswith("front-replay"):
+        ctx.setdefault("case_files", []).append((name, cpath))
     if setup and not impl_only:
         # generator sanity (judged on the model, so a change to the code cannot trigger or hide it): the first `setup`
         # texts of every case are set-up texts and must be well-formed, or the stream would be vacuous
@@ -223,6 +225,12 @@ def run_C01(ctx):
              "[" + ";".join(",".join(["1"] * 5) for _ in range(5)) + "] * " + "[" + ";".join(",".join(["2"] * 5) for _ in range(5)) + "]",
              "inverse([2,1,0,0,0;1,2,1,0,0;0,1,2,1,0;0,0,1,2,1;0,0,0,1,2])", "determinant(identity(5) * 3)"]
     do_stream(ctx, "nesting", props.expr_cases("n", nest), P)
+    chains = []
+    for d in (1, 2, 8, 16, 24, 31):
+        chains += ["sf" + "()" * d, "cc" + "(1)" * d, "sf" + "()" * d + "(1)", "sin" + "(0)" * d, "pick(sf)" + "()" * d, "(sf)" + "()" * d]
+    do_stream(ctx, "call-chains", props.expr_cases("c", chains, prelude="sf() = sf\ncc(q) = cc\npick(hh) = hh\n"), P, setup=1)
+    do_stream(ctx, "factorials", props.expr_cases("f", ["%d!" % n for n in range(0, 180)] + ["(%d + 1)!" % n for n in range(0, 175)] +
+                                                  ["w = %d\nw!" % n for n in range(15, 30)] + ["%d! / %d!" % (n, n - 1) for n in range(1, 175)]), P)
     do_stream(ctx, "hist", itertools.chain(props.hist_exhaustive(3 if quick else 4), props.hist_random(rng, 1000 if quick else 20000),
                                            props.hist_generated(rng, 1000 if quick else 20000)), P)
     # printing: every expression form listed back through a definition, and every value form printed
@@ -252,6 +260,12 @@ def run_C02(ctx):
             "|3e200 + 4e200*i|", "|3e-200*i|", "√(1e300 * i)", "(1e200)^2", "169!", "170!", "171!", "(169+1)!", "1.7e2!", "18!", "19!", "22!", "23!",
             "⌈1e300⌉", "⌊-1e300⌋", "⌈0.1 + 0.2⌉", "⌊0.1 * 3 * 10⌋", "5 % 3", "5.5 % -2", "-5.5 % 2", "(5+5*i) % 3", "(5+5*i) % (1+i)", "7 % 7", "1e300 % 7"]
     run_values(ctx, "edge", edge, oracle=oracles.oracle_numbers)
+    run_values(ctx, "factorials", ["%d!" % n for n in range(0, 175)] + ["%d! / %d!" % (n, n - 1) for n in range(1, 172)] + ["(%d + 1)!" % n for n in range(0, 40)],
+               oracle=oracles.oracle_numbers)
+    # powers with whole exponents of every size on bases next to 1 (where the exponent's size matters most)
+    pw = ["%s ^ %s" % (b, n) for b in ["1.000000001", "0.999999999", "1.0000001", "(0-1.000000001)", "1.000000001 + 0*i", "(1+1e-9*i)"]
+          for n in ["3000000000", "4e9", "-3e9", "2147483647", "2147483648", "-2147483649", "4294967296", "1e10", "65536", "-65537", "1e15"]]
+    run_values(ctx, "powers", pw, oracle=oracles.oracle_numbers)
     # every operator on every pair / every unary form on every one of the numeric classes
     vc = props.VALUE_CLASSES
     vcx = ["(%s) %s (%s)" % (a, op, b) for op in ["+", "-", "*", "/", "%", "^"] for a in vc for b in (vc if not quick else vc[::3] + vc[1:9])]
@@ -263,8 +277,8 @@ def run_C02(ctx):
     vals = ["1e-20*i", "3e-17*i", "1 + 1e-17*i", "1e-300", "0*-1", "1e308*10", "1e-20", "2.2e-16*i", "i*4.9e-324", "1e-17 + i", "2 - 1e-16*i", "e^(i*pi)",
             "1e-200 + 1e-200*i", "-(0*i)", "1e308*10 - 1e308*10", "0.1 + 0.2", "1/3", "2^0.5", "1e21", "9007199254740993"] + \
         [x for x in props.numbers_for(rng, 40 if quick else 2000)]
-    uses = ["v", "v * 1e20", "1 / v", "⌈v⌉", "v - v", "v ^ 2", "v % 1", "√v", "|v|", "v!", "id(v)", "id(v) * 1e20", "1 / id(v)", "⌊id(v)⌋", "k()", "k() / 1e-17", "v / 1e-17"]
-    run_values(ctx, "bound-values", ["v = %s\nid(q) = q\nk() = %s\n%s" % (e, e, "\n".join(uses)) for e in vals])
+    uses = ["dp(1, 2)", "v", "dq(5)", "v", "v * 1e20", "1 / v", "⌈v⌉", "v - v", "v ^ 2", "v % 1", "√v", "|v|", "v!", "id(v)", "id(v) * 1e20", "1 / id(v)", "⌊id(v)⌋", "k()", "k() / 1e-17", "v / 1e-17"]
+    run_values(ctx, "bound-values", ["v = %s\nid(q) = q\nk() = %s\ndp(v, v) = v + 1\ndq(v) = v * 0\n%s" % (e, e, "\n".join(uses)) for e in vals])
 
 
 def run_C03(ctx):
@@ -274,7 +288,7 @@ def run_C03(ctx):
               exhaustive="all token sequences over the 29 kinds up to length %d" % (3 if quick else 4))
     do_stream(ctx, "parsek-reduced", gen.parsek_exhaustive(gen.REDUCED, 4 if quick else 5, "r"), P, oracle=oracles.oracle_parse,
               exhaustive="all token sequences over the reduced 23-symbol alphabet up to length %d" % (4 if quick else 5))
-    g = gen.ExprGen(rng, funcs=("f", "sin", "gg", "g"))     # `g` is the gram: a unit in call position is part of what C03 decides
+    g = gen.ExprGen(rng, vars_num=("x", "y", "x₁", "a²", "n٣", "é", "ß9", "_", "x_1", "°z", "π2", "ünï", "x½"), funcs=("f", "sin", "gg", "g", "sq₂"))     # `g` is the gram: a unit in call position is part of what C03 decides
     texts = []
     for k in range(3000 if quick else 60000):
         e = g.expression(rng.choice([1, 2, 3, 4, 6, 8]))
@@ -399,9 +413,15 @@ def run_C08(ctx):
     for name in props.BUILTIN_NAMES:
         arg = std.get(name, "0.5")
         for pre in ["cp = %s\ncp(qq) = qq + 1\n" % name, "cp = %s\ndelete cp(qq)\ndelete cp(qq, rr)\n" % name, "clear\n", "cp = %s\ncp = 5\ndelete cp\n" % name,
-                    "%s = 3\n%s(qq) = qq\ndelete %s\n" % (name, name, name), "ww(%s) = %s\nww(1)\n" % (name, name)]:
+                    "%s = 3\n%s(qq) = qq\ndelete %s\n" % (name, name, name), "ww(%s) = %s\nww(1)\n" % (name, name),
+                    "dp(%s, %s) = 1\ndp(10, 20)\n" % (name, name), "dq(%s, qq, %s) = qq\ndq(1, 2, 3)\ndq(1, 2)\n" % (name, name)]:
             hist.append(pre + "%s(%s)\n%s" % (name, arg, name))
     run_values(ctx, "builtins-after-history", hist, with_info=True)
+    # every name of the shipped table alone on a line, alone in brackets, and as the only word of its text
+    alone = []
+    for b in ctx["dump"]["builtins"]:
+        alone += [b["key"]]
+    do_stream(ctx, "names-alone", (gen.hist_case("a%d" % k, [e + "\n"]) for k, e in enumerate(alone)), props.proj_values(with_info=True))
     mx = [e for e in props.matrix_exprs(ctx["rng"], ctx["quick"]) if any(n in e for n in ("determinant", "inverse", "transpose", "identity"))]
     run_values(ctx, "matrix-builtins", mx, with_info=True, oracle=oracles.oracle_builtins)
     oracles.table_builtins(ctx)
@@ -427,8 +447,11 @@ def run_C09(ctx):
     for k, n in enumerate(names):
         texts = ["%s = 3\n" % n, "%s(qq) = qq + 100\n" % n, "%s(0) = 1\n" % n, "delete %s\n" % n, "delete %s(qq)\n" % n,
                  "cp = %s\ncp(qq) = qq\ndelete cp(qq)\ncp = 7\ndelete cp\n" % n, "rr(%s) = 1/(%s - %s)\nrr(1)\n" % (n, n, n),
-                 "ok(%s) = %s\nok(5)\n" % (n, n), "clear\n", "%s\n%s(0)\n2 * %s\n" % (n, n, n)]
+                 "ok(%s) = %s\nok(5)\n" % (n, n), "\r%s = 3\n\r%s(qq) = qq + 41\n\t%s = 4\n \r %s = 5\n" % (n, n, n, n), "dp(%s, %s) = 1\ndp(10, 20)\n" % (n, n),
+                 "clear\n", "%s\n%s(0)\n2 * %s\n\r%s\n" % (n, n, n, n)]
         cases.append(gen.hist_case("b%d" % k, texts))
+    cases.append(gen.hist_case("fd0", ["rate = 7\nhalf(q) = q / 2\n", "rate\nhalf(4)\nrate = 8\nhalf(q, r) = q\ndelete half(q)\n", "clear\nrate\nhalf\npi\nrate = 1\nrate\n"]))
+    cases.append(gen.hist_case("fd1", ["rate = 7\nhalf(q) = q / 2\n", "delete rate\ndelete half\nrate\nhalf\n"]))
     do_stream(ctx, "every-builtin", cases, P, monitors={"builtins_changed"}, oracle=oracles.oracle_clear,
               exhaustive="every documented built-in name x {assign, define, define literal, delete, delete signature, via copy, shadowing parameter of a failing and of a succeeding call, clear}")
 
@@ -446,7 +469,7 @@ def run_C10(ctx):
         lines = lines[:6]
         for pos in range(len(lines) + 1):
             # one lexical fault and, for every statement form, a syntax fault in and right after it
-            for fault in ("#", "1 +", ")", "x = ", "[1, 2; 3]", "5 as", "delete 3", "f(a+1) = 2", "1e²",
+            for fault in ("#", "\u00a0", "\ufeff", "\u200b", "\x0c", "\x0b", "\u2028", "€", "¬", "x\u00a0= 1", "1 +\u00a0 2", "\u3000", "\x7f", "\x00", "1 +", ")", "x = ", "[1, 2; 3]", "5 as", "delete 3", "f(a+1) = 2", "1e²",
                           "clear 5", "clear x = 2", "delete x 5", "delete f(a) 5", "x = 1 5", "f(a) = a 5", "1 5", "x = 7 y = 8",
                           "(1", "[1, 2", "|1", "f(1,", "5 m m", "delete", "= 3", "f(a) = ", "x = = 1",
                           "[]", "hh(v) = []", "[;]", "[1,]", "[,1]", "()", "x = ()", "f(,)", "||", "⌈⌉", "x = 1 as", "1 as as m", "delete clear",
@@ -466,7 +489,7 @@ def run_C11(ctx):
     P = props.proj_values(consts_only=True)
     prelude = ("x = 10\ny = 20\npi2 = 2*pi\nf(x) = x + y\ngg(y, sin) = y * 2 + x\nh(pi, e) = pi + e\nk(f) = f + 1\n"
                "r(0) = 1\nr(n) = n * r(n - 1)\nbad(a) = a / 0\nbad2(a) = unknown + a\nnest(a) = f(gg(a, 1)) + h(a, a)\nsh(x) = k(x) + f(x)\n"
-               "apply(hh, x) = hh(x)\ntwice(hh) = hh(hh)\nkk() = 2^10 + 3!\nhalf() = 1/2\nww() = √(-4)\ncc() = [1, 2; 3, 4]\ndup(x, x) = x\n")
+               "apply(hh, x) = hh(x)\ntwice(hh) = hh(hh)\nkk() = 2^10 + 3!\nhalf() = 1/2\nww() = √(-4)\ncc() = [1, 2; 3, 4]\ndup(x, x) = x\nfc(n) = n!\n")
     g = gen.ExprGen(rng, vars_num=("x", "y", "pi2"), funcs=("f", "k", "sh", "nest", "sqrt", "bad", "bad2", "abs", "half", "kk"))   # not `r`: r(non-integer) never ends (known finding K4)
     ex = []
     for _ in range(2500 if quick else 50000):
@@ -474,8 +497,11 @@ def run_C11(ctx):
     ex += ["gg(1, 2)", "h(1, 2)", "gg(x, y)", "r(5)", "r(0)", "r(2.5 - 0.5)", "bad(1)", "bad2(1)", "nest(3)", "f(f(f(1)))", "k(k(2))", "sh(4)", "gg(bad(1), 2)",
            "f(1) + x", "x + f(1)", "[f(1), x; y, gg(1,2)]", "f(1, 2)", "f()", "sin(x)", "h(1)", "r(-1 + 1)", "k(sin)", "k([1,2])",
            "apply(f, 3)", "apply(r, 3)", "apply(sin, 0)", "apply(bad, 1)", "twice(f)", "twice(sin)", "apply(k, 2)", "apply(apply, 1)", "kk()", "half()", "ww()", "cc()",
-           "kk() + half()", "dup(1, 2)", "dup(bad(1), 2)", "apply(dup, 1)", "apply(kk, 1)"]
-    texts = ["x\ny\nf\ngg\nh\nk\nsin\npi\ne\nkk\nhalf\nww\nr\napply\ndup\nhh\n"]
+           "kk() + half()", "dup(1, 2)", "dup(bad(1), 2)", "apply(dup, 1)", "apply(kk, 1)",
+           "PI", "Tau", "Sin(0)", "Log2(8)", "E", "I", "Pi2", "X", "F(1)", "PI + Tau", "Sqrt(4)", "GCD(4, 6)", "Phi"]
+    ex += ["%d! %s %d!" % (n, op, m) for n, m in [(25, 5), (30, 3), (28, 4), (100, 7), (170, 20), (26, 24), (40, 23), (5, 25)] for op in ("-", "/", "+")]
+    ex += ["fc(28) + fc(4)", "fc(30) / fc(3)", "fc(25) - fc(5) - (fc(25) - fc(5))", "[fc(27), fc(6)]", "fc(fc(4))"]
+    texts = ["x\ny\nf\ngg\nh\nk\nsin\npi\ne\nkk\nhalf\nww\nr\napply\ndup\nhh\nPI\nTau\nPI = 1\nTau = 1\ndelete Sin\n"]
     ex += []
     do_stream(ctx, "eval-in-env", (gen.hist_case("v%d" % k, [prelude, e + "\n"] + texts) for k, e in enumerate(ex)), P,
               monitors={"eval_mutated", "eval_not_repeatable"}, setup=1)
@@ -491,7 +517,9 @@ def run_C12(ctx):
              "xx = 7\ndup(xx, xx) = xx\nyy = dup(1, 2)\nxx\n", "ff(xx) = xx + 1\npair(ff, ff) = 0\nyy = pair(1, 2)\nff\n", "twice(ww, ww) = ww\nyy = twice(3, 4)\nww\n",
              "ff(xx) = xx\nhh = (ff)\nhh(xx, yy) = xx*yy\nff\ndelete hh(xx)\nff\n", "id(k) = k\nff(xx) = xx\nhh = id(ff)\ndelete ff(xx)\nhh\nff\n",
              "ff(xx) = xx+1\nhh = ff\ndelete hh(xx)\nff\nhh\nff(2)\n", "aa = 1\nbb = aa\naa = 2\nbb\ndelete aa\nbb\n",
-             "mm = [1,2;3,4]\nnn = mm\nmm = mm * 2\nnn\n", "ss = sin\ntt = ss\ndelete ss\ntt(0)\nsin(0)\n"]
+             "mm = [1,2;3,4]\nnn = mm\nmm = mm * 2\nnn\n", "ss = sin\ntt = ss\ndelete ss\ntt(0)\nsin(0)\n",
+             "aa = 1\nff(xx) = xx\naa = 2; hh = ff; delete zz\naa\nhh\n", "aa = 1\nff(xx) = xx\ndelete aa; kk(xx) = 2*xx; ff(xx, yy) = xx*yy; pi = 3\naa\nkk\nff\n",
+             "aa = 1; bb = aa; bb = 1/0; aa; bb\naa\nbb\n", "ans = 5\n2 + 2\nans\n", "ff(xx) = xx + 1\nff\nans(xx, yy) = xx * yy\nff\nans\n", "last = 1\n_ = 2\nit = 3\n7\nlast\n_\nit\nresult\nprev\n"]
     do_stream(ctx, "copies", (gen.hist_case("c%d" % k, [t]) for k, t in enumerate(extra)), P, monitors={"alias", "frame_violated"})
 
 
@@ -569,7 +597,8 @@ def run_C14(ctx):
             k += 1
             cases.append(gen.hist_case("d%d" % k, [pre, "x = x + 1; " * n + fault + "; x\n"]))
             k += 1
-    two = ["(1/0) + unknown", "unknown + (1/0)", "sin(1/0, unknown)", "[1/0, unknown]", "[unknown; 1/0]", "f(unknown)(1/0)", "unknown(1/0)", "(1/0)(unknown)",
+    two = ["[1 m, nope]", "[3, sin, 1/0]", "[1, 2; [7], ⌈i⌉]", "[sin, unknown]", "[[1], 1/0]", "[1 m, 2; nope, 3]", "[nope, 1 m]", "[1, 2; 3 m, 1/0]", "sin([1], nope)", "log(sin, 1/0)",
+           "(1/0) + unknown", "unknown + (1/0)", "sin(1/0, unknown)", "[1/0, unknown]", "[unknown; 1/0]", "f(unknown)(1/0)", "unknown(1/0)", "(1/0)(unknown)",
            "(5 m + 1) * (1/0)", "-(1/0) + 2.5!", "|unknown| + ⌈i⌉", "f(1/0, unknown, 3)", "sin(unknown) + sin(1, 2)", "(1/0) as m", "unknown as kg"]
     for t in two:
         cases.append(gen.hist_case("d%d" % k, [pre, t + "\n"]))
@@ -623,6 +652,13 @@ def run_C15(ctx):
             for _ in range(4 if quick else 40):
                 cells = ",".join("#%s_#%s" % (rng.choice(SPECIAL_F + [rnd()]), rng.choice(["0000000000000000", "0000000000000000", rnd(), "3ff0000000000000"])) for _ in range(r * c))
                 cases.append("print m%d m:%d:%d:%s" % (k, r, c, cells)); k += 1
+    # wide, tall and long outputs (more columns / bytes than any fixed table or buffer would hold)
+    for r, c in [(1, 16), (1, 17), (1, 18), (2, 17), (17, 17), (1, 40), (40, 1), (3, 33), (1, 300), (70, 70)]:
+        cells = ",".join("#%s_#%s" % (rng.choice(SPECIAL_F[:6] + [rnd()]), "0000000000000000") for _ in range(r * c))
+        cases.append("print m%d m:%d:%d:%s" % (k, r, c, cells)); k += 1
+    big = "#7e37e43c8800759c_#7e37e43c8800759c"      # 1e300 + 1e300i: 600 bytes per cell
+    for r, c in [(4, 4), (3, 4), (2, 8), (6, 6)]:
+        cases.append("print m%d m:%d:%d:%s" % (k, r, c, ",".join([big] * (r * c)))); k += 1
     # rows that repeat (first = last, all equal, zero matrix): row separators must not depend on row contents
     for r in range(2, 5):
         for c in range(1, 4):
@@ -639,11 +675,13 @@ def run_C15(ctx):
     ex = ["1/3", "2/3 + i/7", "-0.1 - 0.2*i", "5 km", "(1+i) * 3 kg", "[1, 22; 333, 4444]", "[1+i, 2; 3, 4-i]", "sin", "f", "0 * -1", "i * i", "-i", "0*i",
           "1e21", "1e-7", "100 °F as °C", "3 µm", "[0.5; 1.25]", "(0 - i) * 2 m", "1e999", "1e999 - 1e999", "-(1e999)",
           "[1,2;3,4] - [1,2;3,4]", "[1,2;3,4;1,2]", "[5;700;5]", "identity(3) * 0", "1 kg * (1e-17 + 2*i)", "3 m - 1e-20 m * i", "(1e-320 + i) * 1 B",
-          "(4.9e-324 + 4.9e-324*i) as km", "(1e999-1e999) as m", "((1e999-1e999) + i) as kg"]
+          "(4.9e-324 + 4.9e-324*i) as km", "(1e999-1e999) as m", "((1e999-1e999) + i) as kg",
+          "identity(17)", "identity(40)", "identity(70)", "identity(70) * (1e300 + 1e300*i)", "[1,2,3,4,5,6,7,8,9,10,11,12,13,14,15,16,17,18]",
+          "(1e300 + 1e300*i) * [1,1,1,1;1,1,1,1;1,1,1,1;1,1,1,1]", "(1e300 + 1e300*i) * identity(6)", "identity(30) * 1e-300 / 3", "big", "wide(1)", "1e300 + 1e300*i"]
     run_values_text(ctx, "computed", ex)
 
 
-def run_values_text(ctx, name, exprs, prelude="x = 3\nf(x) = x\nf(0) = 1\n"):
+def run_values_text(ctx, name, exprs, prelude="x = 3\nf(x) = x\nf(0) = 1\nbig = identity(50) / 7\nwide(q) = [q, 2*q, 3*q, 4*q, 5*q, 6*q, 7*q, 8*q, 9*q, 10*q, 11*q, 12*q, 13*q, 14*q, 15*q, 16*q, 17*q, 18*q, 19*q]\n"):
     # judged on the implementation alone: what was printed must denote what was computed (whatever was computed)
     return do_stream(ctx, name, props.expr_cases(name[0], exprs, prelude=prelude), props.proj_values(with_text=True), monitors={"print_mismatch"},
                      oracle=oracles.oracle_reader_hist, impl_only=True)
@@ -679,6 +717,10 @@ RUNNERS = {"C01": run_C01, "C02": run_C02, "C03": run_C03, "C04": run_C04, "C05"
 
 def run_property(pid, ctx):
     RUNNERS[pid](ctx)
+    if pid not in ("C16", "C19"):
+        # the same programs through the real binary in every mode (C16 / C19 do nothing else)
+        from . import replay as _replay
+        _replay.replay_from_files(ctx)
 
 
 def search_after_lean_failure(pid, ctx, lean_failure):
